@@ -166,6 +166,46 @@ def estimator_part(ctx, fails):
         dfm.loc[dfm.index[rs.choice(len(dfm), size=max(2, len(dfm) // 10), replace=False)], 'Y'] = np.nan
         both(f, dfm, replicate(dfm), 'AIPTW.missing-outcome', 'AIPTW with missing outcomes', fails, ctx,
              {'part': 'estimators', 'data': {c: [None if (isinstance(v, float) and v != v) else v for v in dfm[c].tolist()] for c in dfm.columns}, 'meta': meta})
+        # outcomes missing with a probability that depends on the treatment AND on the weight, handled by a missing-outcome
+        # model: every nuisance model (the missingness model's denominator too) must be a frequency-weighted fit
+        if otype != 'poisson':
+            dfw = df.copy()
+            pmis = 0.08 + 0.2 * (np.asarray(dfw['A'], dtype=float) == 1) + 0.3 * (np.asarray(dfw[WL[0]]) >= 4)
+            dfw.loc[dfw.index[rs.uniform(size=len(dfw)) < pmis], 'Y'] = np.nan
+            repw = replicate(dfw)
+            payw = {'part': 'estimators', 'frame': datagen.pack_frame(dfw), 'meta': meta}
+            ctx.count('missingness related to the weights, with missing_model()')
+            for stab in (True, False):
+                def fm(frame, w, stab=stab):
+                    ip = IPTW(frame, 'A', 'Y', weights=w)
+                    ip.treatment_model(rhs, stabilized=stab, print_results=False)
+                    ip.missing_model('A + ' + rhs, stabilized=stab, print_results=False)
+                    ip.marginal_structural_model('A')
+                    refit(ip, continuous_distribution=dist) if dist else refit(ip)
+                    if otype == 'binary':
+                        return [ip.risk_difference['RD'].iloc[1], ip.risk_ratio['RR'].iloc[1]]
+                    return list(ip.average_treatment_effect['ATE'])
+                both(fm, dfw, repw, 'IPTW.missing_model.%s' % ('stabilized' if stab else 'unstabilized'),
+                     'IPTW(stabilized=%s) with missing_model() and missingness related to the weights' % stab, fails, ctx, payw)
+
+            def fa(frame, w):
+                ai = AIPTW(frame, 'A', 'Y', weights=w)
+                ai.exposure_model(rhs, print_results=False)
+                ai.missing_model('A + ' + rhs, print_results=False)
+                ai.outcome_model('A + ' + rhs, continuous_distribution=dist, print_results=False) if dist else ai.outcome_model('A + ' + rhs, print_results=False)
+                refit(ai)
+                return [ai.risk_difference, ai.risk_ratio] if otype == 'binary' else [ai.average_treatment_effect]
+            both(fa, dfw, repw, 'AIPTW.missing_model', 'AIPTW with missing_model() and missingness related to the weights', fails, ctx, payw)
+
+            def fs(frame, w):
+                g = GEstimationSNM(frame, exposure='A', outcome='Y', weights=w)
+                g.exposure_model(rhs, print_results=False)
+                g.missing_model('A + ' + rhs, print_results=False)
+                g.structural_nested_model('A')
+                refit(g)
+                return list(g.psi)
+            both(fs, dfw, repw, 'GEstimationSNM.missing_model', 'GEstimationSNM with missing_model() and missingness related to the weights',
+                 fails, ctx, payw)
         for std in ('population', 'exposed', 'unexposed'):
             def f(frame, w, std=std):
                 g = TimeFixedGFormula(frame, 'A', 'Y', outcome_type=otype, standardize=std, weights=w)
